@@ -70,6 +70,7 @@ def run(ctx):
             cuts = [rnd.choice([0, 0, 1, 2, 7, 31, 64, 100]) for _ in range(rnd.randrange(1, 7))] + [0] * (rep % 2)
             traces.append(rc4_trace(key, [rb(c) for c in cuts])); ctx.mark(('rc4', kl, str(cuts)))
         traces.append(rc4_trace(key, [b'']))                                   # the empty message
+        traces.append(rc4_trace(key, [rb(1), rb(300), rb(2), rb(150)]))          # a deviation of the permutation may show only dozens of bytes after the cut
     # all compositions of 6 bytes into <= 4 pieces (the MC model's splits, on real data)
     import itertools
     key = rb(7)
